@@ -441,7 +441,8 @@ def harnesses(tier):
 
 EXPECT = ["C15.maxstep.every_component_of_an_inserted_point_repeats_its_own_predecessor", "C15.fixed.jump_component_is_running_sum_of_increments", "C15.fixed.diffusion_component_is_running_sum_of_scaled_normals", "C15.jumptimes.times_non_decreasing",
           "C15.jumptimes.jump_component_is_running_sum", "C15.jumptimes.diffusion_component_is_running_sum_of_scaled_normals", "C15.maxstep.every_step_at_most_epsilon",
-          "C15.maxstep.values_kept_and_inserted_points_repeat_predecessor", "C15.maxstep.returned_path_respects_the_cap"]
+          "C15.maxstep.values_kept_and_inserted_points_repeat_predecessor", "C15.maxstep.returned_path_respects_the_cap",
+          "C15.path_value_is_jump_plus_diffusion_each_time_it_is_read", "C15.reading_the_path_value_leaves_its_components_unchanged"]
 
 
 def main(tier):
